@@ -2,11 +2,19 @@ use num::Zero;
 use num::bigint::BigInt;
 use num::rational::Ratio;
 
-fn apply_exp10(base: BigInt, exponent: i32) -> Ratio<BigInt> {
-    if exponent >= 0 {
-        Ratio::from(base * BigInt::from(10).pow(exponent as u32))
+// Powers of ten beyond this are rejected rather than computed (they would take forever).
+const MAX_EXP10: i64 = 1 << 20;
+
+fn apply_exp10(base: BigInt, exponent: i64) -> Option<Ratio<BigInt>> {
+    if exponent.abs() > MAX_EXP10 {
+        None
+    } else if exponent >= 0 {
+        Some(Ratio::from(base * BigInt::from(10).pow(exponent as u32)))
     } else {
-        Ratio::new(base, BigInt::from(10).pow((-exponent) as u32))
+        Some(Ratio::new(
+            base,
+            BigInt::from(10).pow((-exponent) as u32),
+        ))
     }
 }
 
@@ -59,9 +67,9 @@ fn parse_decimal_exactly(s: &str) -> Option<Ratio<BigInt>> {
             integer_digits * BigInt::from(10).pow(decimal_places as u32) + fractional_digits;
         let base_value = if negative { -base_value } else { base_value };
 
-        Some(apply_exp10(base_value, exponent - (decimal_places as i32)))
+        apply_exp10(base_value, exponent as i64 - decimal_places as i64)
     } else {
-        Some(apply_exp10(base_str.parse().ok()?, exponent))
+        apply_exp10(base_str.parse().ok()?, exponent as i64)
     }
 }
 
